@@ -138,6 +138,40 @@ Theorem c14_match_fields_order :
 Proof. exact match_fields_perm. Qed.
 Print Assumptions c14_match_fields_order.
 
+(* ---- one rule shared by all processors of a pipeline (Pipeline.newProc: one *ActionPluginStaticInfo) --------- *)
+(* evaluating a selector reads the rule: after any sequence of evaluations - any interleaving of the evaluations of
+   any number of processors is such a sequence - the rule is the configured one (values in order, regexps) *)
+Theorem c14_shared_rule_unchanged :
+  forall re_match mode invert rule es,
+    snd (shared_run re_match mode invert rule es) = rule.
+Proof. exact shared_rule_unchanged. Qed.
+Print Assumptions c14_shared_rule_unchanged.
+
+(* history independence, the theorem the concurrent family of the harness relies on: the decision for an event is
+   the documented one for (rule as configured, event), whatever was evaluated before or after it *)
+Theorem c14_shared_history_independent :
+  forall re_match mode invert rule pre e post,
+    nth_error (fst (shared_run re_match mode invert rule (pre ++ e :: post))) (length pre)
+    = Some (match_spec re_match mode invert rule e).
+Proof. exact shared_history_independent. Qed.
+Print Assumptions c14_shared_history_independent.
+
+(* the predicate an observed run over a shared rule is judged by holds of the model's run ... *)
+Theorem c14_shared_run_ok :
+  forall re_match mode invert rule es,
+    shared_ok re_match mode invert rule es (fst (shared_run re_match mode invert rule es))
+              (snd (shared_run re_match mode invert rule es)) = true.
+Proof. exact shared_run_ok. Qed.
+Print Assumptions c14_shared_run_ok.
+
+(* ... and says: the rule read back is the configured one and every decision is the documented one *)
+Theorem c14_shared_ok_sound :
+  forall re_match mode invert rule es decisions rule_after,
+    shared_ok re_match mode invert rule es decisions rule_after = true ->
+    rule_after = rule /\ decisions = map (match_spec re_match mode invert rule) es.
+Proof. exact shared_ok_sound. Qed.
+Print Assumptions c14_shared_ok_sound.
+
 (* ---- match_fields as written in a configuration: fd/util.go extractConditions ----------------- *)
 (* a value of the match_fields map is a JSON tree; [re_ok] = regexp.Compile succeeds. The translation as coded
    (first byte a slash -> cfg.CompileRegex, else one exact value; list -> its strings; anything else refused) is
@@ -282,6 +316,17 @@ Example c14_match_fields_nonvacuous :
   /\ is_match ex_re MAndPrefix true ex_conds ex_legacy_event = false
   /\ is_match ex_re MOr false ex_conds (JObj [([110]%N, JStr [120]%N)]) = false.
 Proof. vm_compute. repeat split. Qed.
+
+(* a shared rule over events that match different non-first values: all selected, rule unchanged; a run that lost a
+   value of the rule is rejected by the predicate *)
+Example c14_shared_nonvacuous :
+  shared_run ex_re MOr false ex_conds
+             [JObj [([110]%N, JStr [116]%N)]; JObj [([110]%N, JStr [112]%N)]; JObj [([110]%N, JStr [120]%N)]]
+  = ([true; true; false], ex_conds)
+  /\ shared_ok ex_re MOr false ex_conds [JObj [([110]%N, JStr [116]%N)]] [true]
+               [ {| c_field := [[110]%N]; c_values := [[116]%N; [116]%N]; c_regexp := None |};
+                 {| c_field := [[112]%N]; c_values := []; c_regexp := Some [112; 45]%N |} ] = false.
+Proof. vm_compute. split; reflexivity. Qed.
 
 (* the README rule `custom_threshold` (pipeline/README.md, Antispam) on a matching and a non-matching datum;
    a length leaf never holds on antispam data *)
